@@ -35,6 +35,7 @@ type Op struct {
 	K       string
 	A, B, C int
 	H, Body []byte // explicit header / body (nil: built by the kind)
+	S       int    // send: 1 = the application keeps a second reference (Clone) of the message; 2 = send that very message again
 }
 
 // OptDef describes a socket option.
@@ -97,6 +98,9 @@ type G struct {
 	Passes   int
 	TTL      int
 	LastFrom int // pipe of the latest delivery
+	Held     *mangos.Message // a sent message the application kept a reference of (Op.S)
+	HeldH    []byte
+	HeldB    []byte
 	NStep    int // operations applied so far
 	IsRecv   map[int]bool
 }
@@ -256,10 +260,22 @@ func (g *G) Apply(o Op) {
 			hdr, body = g.K.MkSend(g, o, t, n)
 		}
 		proto := d.Proto
-		d.Call(t, func() (*seq.Msg, error) {
-			m := mangos.NewMessage(len(body))
+		var m *mangos.Message
+		if o.S == 2 && g.Held != nil {
+			// the message sent before, of which the application kept a reference: the library took its own reference
+			// then, so this one is still exactly what the application built (header included)
+			m, hdr, body = g.Held, g.HeldH, g.HeldB
+			g.Held = nil
+		} else {
+			m = mangos.NewMessage(len(body))
 			m.Header = append(m.Header, hdr...)
 			m.Body = append(m.Body, body...)
+			if o.S == 1 {
+				m.Clone()
+				g.Held, g.HeldH, g.HeldB = m, hdr, body
+			}
+		}
+		d.Call(t, func() (*seq.Msg, error) {
 			err := proto.SendMsg(m)
 			if err != nil {
 				m.Free()
